@@ -12,6 +12,32 @@ fn main() {
     if args.len() < 3 {
         usage();
     }
+    if args[1] == "gen" {
+        // bsv gen <what> <seed> <n> <outdir>
+        if args.len() < 6 {
+            usage();
+        }
+        match bsv::progs::generate(&args[2], args[3].parse().unwrap_or(0), args[4].parse().unwrap_or(10), &args[5]) {
+            Ok(()) => std::process::exit(0),
+            Err(e) => {
+                eprintln!("{e}");
+                std::process::exit(2)
+            }
+        }
+    }
+    if args[1] == "gen-one" {
+        if args.len() < 5 {
+            usage();
+        }
+        let item = std::fs::read_to_string(&args[3]).unwrap_or_default();
+        match bsv::progs::generate_one(&args[2], &item, &args[4]) {
+            Ok(()) => std::process::exit(0),
+            Err(e) => {
+                eprintln!("{e}");
+                std::process::exit(2)
+            }
+        }
+    }
     let prop = args[1].clone();
     let tier = match args[2].as_str() {
         "quick" => Tier::Quick,
